@@ -1,3 +1,4 @@
+#![cfg_attr(not(feature = "hooks"), allow(dead_code))]
 //! Shadow heap installed through lean_string's `verif-hooks` feature.
 //!
 //! Thread-local: every worker thread has its own heap, so 16 shards can run in one process.
